@@ -149,9 +149,12 @@ def _run_history(seq, hashseed=None):
     """Parse the texts `seq` one after the other in ONE fresh interpreter; observation of the last."""
     env = dict(_os.environ)
     env["VF_HIST_CHILD"] = "1"
+    flags = []
     if hashseed is not None:
+        if hashseed < 0:                   # negative: the interpreter runs with -O (asserts stripped) and seed -hashseed
+            flags, hashseed = ["-O"], -hashseed
         env["PYTHONHASHSEED"] = str(hashseed)
-    p = _subprocess.run([_sys.executable, "-c", _HIST_PROG % ([p_ for p_ in _sys.path if p_],)] + [str(i) for i in seq],
+    p = _subprocess.run([_sys.executable] + flags + ["-c", _HIST_PROG % ([p_ for p_ in _sys.path if p_],)] + [str(i) for i in seq],
                         env=env, capture_output=True, text=True, timeout=300)
     for ln in p.stdout.splitlines():
         if ln.startswith("REF "):
@@ -187,7 +190,7 @@ def history_free(x1: int, x2: int, y: int) -> bool:
         return done(_run_history(seq) == _HIST_REFS[iy])
 
 
-HASHSEEDS = [1, 2, 3, 7, 12345, 4242424242]
+HASHSEEDS = [1, 2, 3, 7, 12345, 4242424242, -5]      # negative: also started with -O
 
 
 def hash_seed_free(y: int, si: int) -> bool:
